@@ -184,6 +184,23 @@ theorem aupdate_room (cap : Nat) (m : List (α × β)) (k : α) (v : β) (h : al
 theorem aerase_length_le (m : List (α × β)) (k : α) : (aerase m k).length ≤ m.length := by
   unfold aerase; exact List.length_filter_le _ _
 
+theorem alookup_filter_keep (m : List (α × β)) (keep : α × β → Bool) (k : α) :
+    (∀ v, alookup m k = some v → keep (k, v) = true) → alookup (m.filter keep) k = alookup m k := by
+  induction m with
+  | nil => intro _; rfl
+  | cons p rest ih =>
+    obtain ⟨a, b⟩ := p
+    intro h
+    by_cases ha : a = k
+    · subst ha
+      have hk : keep (a, b) = true := h b (by simp [alookup])
+      simp [List.filter_cons, hk, alookup]
+    · have ih' := ih (fun v hv => h v (by simp [alookup, ha, hv]))
+      by_cases hk : keep (a, b) = true
+      · simp only [List.filter_cons, hk, if_true, alookup, ha, if_false]; exact ih'
+      · simp only [List.filter_cons, hk, alookup, ha, if_false]; exact ih'
+
+
 end AList
 
 /-! ## `sub64` under a monotone clock -/
